@@ -379,7 +379,7 @@ func (mc *MemoryChannel) copyAofFrom(seg *memorySegment, offset int64, pipew pip
 			continue
 		}
 		if errors.Is(err, io.EOF) {
-			next := mc.nextAofSegment(current.left)
+			next := mc.nextAofSegment(current)
 			if next == nil {
 				return nil
 			}
@@ -392,11 +392,14 @@ func (mc *MemoryChannel) copyAofFrom(seg *memorySegment, offset int64, pipew pip
 	}
 }
 
-func (mc *MemoryChannel) nextAofSegment(left int64) *memorySegment {
+// nextAofSegment returns the successor of current. The segment is looked up by identity: after a
+// reset the list belongs to another data generation and may contain a segment with the same left
+// offset, whose successors a reader of the old generation must not follow.
+func (mc *MemoryChannel) nextAofSegment(current *memorySegment) *memorySegment {
 	mc.mux.RLock()
 	defer mc.mux.RUnlock()
 	for i := 0; i < len(mc.aofSegs)-1; i++ {
-		if mc.aofSegs[i].left == left {
+		if mc.aofSegs[i] == current {
 			return mc.aofSegs[i+1]
 		}
 	}
